@@ -248,7 +248,7 @@ fn eval(c: &Case, seed: u64, rep: &mut Report) {
                     viol(
                         rep,
                         &format!("tampered-{family}-accepted"),
-                        format!("validate accepted a blob tampered by {name} (stored commitment is not the ADR-013 commitment of the content)"),
+                        format!("validate accepted a blob tampered by {name} (the tampered content is not a legal blob format, or its ADR-013 commitment differs from the stored one)"),
                         json!({"step": "tamper", "tamper": name}),
                     );
                 } else {
